@@ -22,7 +22,7 @@ type sval struct{ name, v string }
 
 func stringMenu(tier string) []sval {
 	m := []sval{
-		{"ascii", "plain-Value_1"}, {"slash", "a/b/c"}, {"seps", "x:y?z#w%v_u*t"}, {"markup", `a<b>&"c"'d'`}, {"space", " lead trail "},
+		{"ascii", "plain-Value_1"}, {"slash", "a/b/c"}, {"trailing-slash", "a/b/"}, {"leading-slash", "/a/b"}, {"double-slash", "a//b"}, {"only-slash", "/"}, {"seps", "x:y?z#w%v_u*t"}, {"markup", `a<b>&"c"'d'`}, {"space", " lead trail "},
 		{"case", "MiXeD"}, {"non-ascii", "héllo✓日本"}, {"percent-escape", "a%2Fb%20c"}, {"backslash", `a\b\"c`}, {"newline", "a\nb\tc"},
 		{"json-ish", `{"k":[1,null]}`}, {"tmpl", "{{.id}}"}, {"dot-dot", "../x"}, {"plus", "a+b c"},
 	}
